@@ -14,8 +14,15 @@ import FGVerif.Proofs.C14
                               plus well-formedness of the ITS), for every well-formed simple `X` whose labels
                               are scalars ≠ 0 or pairs ≠ (0,0) (`goodLabel`; the driver evaluates these
                               hypotheses on every sample).  `get_its` is modelled here only for two graphs on
-                              the same nodes with `aam = id + 1` (`Model/C15.lean: getIts`); the general
-                              `get_its`/`split_its` theorems are C09/C10's.
+                              the same nodes with `aam = id + 1` (`Model/C15.lean: getIts`).
+  * `C15.superposition_general` (`Proofs/C15General.lean`) the same statement for the GENERAL models of
+                              `get_its` / `split_its` (`Model/C09.lean`, `Model/C10.lean`, validated against
+                              `fgutils.its`), through the adapter `Model/C15General.lean`: `C10.resuper (toGr x)`
+                              is defined and is `x` named by map number (from `C10.its_of_split`); `C09.getIts`
+                              on the two halves of the C15 model is the same ITS (from
+                              `C10.smiles_roundtrip_modulo_rdkit` with the identity renaming); and so is the
+                              small `getIts` — `C15.getIts_small_eq_general`: the small and the general
+                              `get_its` agree on the halves of every sample in the decidable domain `generalOk`
   * `C15.da_counts`           the documented sample counts 10470 / 12875 are what the counting formula
                               (proved equal to the number of samples: `C14.total`) gives on the generated
                               shipped configuration — kernel arithmetic (`C14.da_count_pos/neg`).
